@@ -17,6 +17,7 @@ type mLayout struct {
 	pipeGap    int    // spelling of the bar of a type choice: 0 " | ", 1 "|", 2 "| ", 3 " |", 4 "\t|  "
 	listBreak  bool   // in /* */ annotations the items of a rule's list stand on their own lines
 	emptyGap   string // blanks between the brackets of an empty container written on one line
+	slashGap   string // blanks between the annotation introducer (// or /*) and its body ("" = one space)
 	annGap     string // blanks between element and annotation
 	multi      bool   // write annotations as /* */ instead of //
 	quoteNames bool   // quote rule names
@@ -88,10 +89,14 @@ func mAnnotationL(n mNode, L mLayout) string {
 		}
 		body += note
 	}
-	if L.multi {
-		return L.annGap + "/* " + body + " */" + n.userComment
+	sg := " "
+	if L.slashGap != "" {
+		sg = L.slashGap
 	}
-	return L.annGap + "// " + body + n.userComment
+	if L.multi {
+		return L.annGap + "/*" + sg + body + " */" + n.userComment
+	}
+	return L.annGap + "//" + sg + body + n.userComment
 }
 
 // mValText spells the bar of a type choice as the layout says.
@@ -174,11 +179,11 @@ func mCanonical() mLayout {
 // mVary changes ONE layout dimension of L (chosen symbolically).
 func mVary(L mLayout, tag string) mLayout { return mVaryAmong(L, tag, nil) }
 
-// mVaryAmong: the dimension is taken from the given list (nil: any of the 14).
+// mVaryAmong: the dimension is taken from the given list (nil: any of the 15).
 func mVaryAmong(L mLayout, tag string, among []int) mLayout {
 	dim := 0
 	if among == nil {
-		dim = zzverif.IntRange(tag+"dim", 0, 13)
+		dim = zzverif.IntRange(tag+"dim", 0, 14)
 	} else {
 		dim = among[zzverif.IntRange(tag+"dim", 0, len(among)-1)]
 	}
@@ -201,6 +206,8 @@ func mVaryAmong(L mLayout, tag string, among []int) mLayout {
 		L.lead = L.nl + " " + L.nl
 	case 9:
 		L.nameGap = []string{" ", "\t", "  "}[zzverif.IntRange(tag+"nameGap", 0, 2)]
+	case 14:
+		L.slashGap = []string{"\t", "  ", " \t"}[zzverif.IntRange(tag+"slashGap", 0, 2)]
 	case 13:
 		L.emptyGap = []string{" ", "\t", "  "}[zzverif.IntRange(tag+"emptyGap", 0, 2)]
 	case 11:
